@@ -54,7 +54,28 @@ PLAIN = [w for w in WORDS if "$" not in w]
 SLOW_REF = "${Z}"                # Z is never set: expands to nothing, slowly when repeated
 PAR_BOUND_MS = 15000             # how long all children of one concurrent case may take to be alive together
 BAKED_COUNTS = [1, 2, 3, 4, 8, 16, 17, 19, 21, 33]
+# env-map CONTENT as a dimension: entries with arbitrary bytes (name, value); none of these names is referenced
+ODD_ENTRIES = [(b"", b"v"), (b"A=B", b"v"), (b"N\x00K", b"v"), (b"Q", b"a\x00b"), (b"LONG", b"x" * 1500), (b"U\xff", b"\xfe\xff"),
+               (b"=", b""), (b"", b""), (b"Q", b"\x00")]
 NILS = {"nil": True, "id": 0, "off": 0, "len": 0, "cap": 0}
+
+
+def hx(b):
+    return b.hex()
+
+
+def emap_entries(o):
+    """the env map of a direct call, byte-exact: sorted [(name bytes, value bytes)]"""
+    m = {k.encode(): v.encode() for k, v in (o.get("emap") or {}).items()}
+    for k, v in o.get("emap_odd") or []:
+        m[bytes.fromhex(k)] = bytes.fromhex(v)
+    return sorted(m.items())
+
+
+def emap_refused(o):
+    """os/exec (Go 1.20+) refuses an environment that contains a NUL byte: nothing is started (measured on the unchanged tree;
+    an empty name, '=' in a name, very long and non-UTF-8 entries are handed on as they are)"""
+    return o["fn"] in USES_MAP and any(b"\x00" in k or b"\x00" in v for k, v in emap_entries(o))
 
 
 def py_expand(s, lookup):
@@ -198,10 +219,46 @@ def gen_history(rng):
             if fn in USES_MAP or rng.random() < 0.3:
                 emap = None if rng.random() < 0.2 else {v: rng.choice(VALUES) for v in VARS + [UNSET] if rng.random() < 0.35}
             args = dict(NILS) if rng.random() < 0.1 else gen_slice(rng, arrays, prefer_long=True)
-            ops.append({"op": "direct", "fn": fn, "emap": emap, "cmd": rng.choice(CMDS), "args": args})
+            d = {"op": "direct", "fn": fn, "emap": emap, "cmd": rng.choice(CMDS), "args": args}
+            if fn in USES_MAP and rng.random() < 0.3:
+                d["emap_odd"] = [[hx(k), hx(v)] for k, v in rng.sample(ODD_ENTRIES, rng.choice([1, 1, 2]))]
+            ops.append(d)
     if not any(o["op"] in ("call", "direct") for o in ops):
         ops.append({"op": "call", "c": 0, "extra": dict(NILS)})
     return {"kind": "hist", "env": gen_env(rng), "arrays": arrays, "closures": [], "ops": ops}
+
+
+def gen_mixed(rng):
+    """a direct call WITH AN ENV MAP naming a variable is in flight (its child held at the gate) while a closure whose
+    arguments reference that variable is called - possibly after the program itself has Setenv'd the variable - and the
+    closure is called once more after everything has returned.  Every closure call is judged against the environment
+    the PROGRAM set: env maps of other calls are not Setenv operations."""
+    arrays = gen_arrays(rng)[:2]
+    var = rng.choice(VARS)
+    arrays.append(["pre$%s" % var, "${%s}" % var, rng.choice(PLAIN)])
+    baked = {"nil": False, "id": len(arrays) - 1, "off": 0, "len": rng.choice([1, 2]), "cap": 3}
+    arrays.append(["$%s" % var, "m-" + rng.choice(PLAIN), "${%s}x" % var])
+    xs = {"nil": False, "id": len(arrays) - 1, "off": 0, "len": rng.choice([1, 2, 3]), "cap": 3}
+    cls = [{"kind": "out", "cmd": rng.choice(CMDS_ABS), "baked": baked}]
+    mapped = {"op": "direct", "fn": rng.choice(["OutputWith", "OutputWith", "Exec", "RunWith"]), "cmd": rng.choice(CMDS_ABS), "args": xs,
+              "emap": {var: "mapped-" + rng.choice(["1", "x y", ""])}}
+    if rng.random() < 0.3:
+        mapped["emap"][rng.choice(VARS)] = "also"
+    closure_call = {"op": "call", "c": 0, "extra": dict(NILS) if rng.random() < 0.4 else xs}
+    calls = [mapped, closure_call] if rng.random() < 0.75 else [closure_call, mapped]
+    stagger = [None, {"k": var, "v": "set-" + rng.choice(VALUES)} if rng.random() < 0.6 else None]
+    if rng.random() < 0.4:
+        calls.append({"op": "call", "c": 0, "extra": dict(NILS)})
+        stagger.append({"k": var, "v": "again"} if rng.random() < 0.5 else None)
+    ops = [{"op": "setenv", "k": var, "v": rng.choice(VALUES)}] if rng.random() < 0.7 else []
+    ops.append({"op": "par", "c": 0, "calls": calls, "stagger": stagger, "reps": 1, "bound_ms": PAR_BOUND_MS, "shape": "mixed"})
+    # after everything has returned: the closure again (and the mapped function again)
+    ops.append({"op": "call", "c": 0, "extra": dict(NILS) if rng.random() < 0.5 else xs})
+    if rng.random() < 0.5:
+        ops.append(dict(mapped))
+    env = gen_env(rng, cmdvars=False)
+    env.pop(VERBOSE, None)
+    return {"kind": "par", "env": env, "arrays": arrays, "closures": cls, "ops": ops, "scheds": [[]]}
 
 
 def gen_par(rng, reps):
@@ -224,7 +281,9 @@ def gen_par(rng, reps):
     # IDENTICAL call-time arguments are the main shape (the same question asked by several goroutines at once: every
     # call must start its own child); "staggered": identical calls started one after the other while the earlier
     # children are still running, with a Setenv of a referenced variable in between; "distinct": told apart by argument
-    shape = rng.choice(["identical"] * 5 + ["distinct"] * 3 + ["staggered"] * 4)
+    shape = rng.choice(["identical"] * 5 + ["distinct"] * 5 + ["staggered"] * 3 + ["mixed"] * 5)
+    if shape == "mixed":
+        return gen_mixed(rng)
     n = rng.choice([2, 2, 3, 4, 6]) if shape != "staggered" else rng.choice([2, 2, 3])
     extras = []
     stagger = None
@@ -260,7 +319,11 @@ def gen_par(rng, reps):
                 arrays[e["id"]] = cells[:nb] + arrays[e["id"]]
             extras[g] = dict(e, len=nb + e["len"], cap=nb + 2)
     ops.append(par)
-    return {"kind": "par", "env": gen_env(rng, cmdvars=False), "arrays": arrays, "closures": cls, "ops": ops,
+    env = gen_env(rng, cmdvars=False)
+    if shape == "staggered":
+        env.pop(VERBOSE, None)
+        ops = [x for x in ops if not (x["op"] == "setenv" and x["k"] == VERBOSE)]
+    return {"kind": "par", "env": env, "arrays": arrays, "closures": cls, "ops": ops,
             "scheds": [[rng.random() < 0.5 for _ in range(rng.choice([0, 3, 8, 20, 40, 200]))] for _ in range(reps)]}
 
 
@@ -328,7 +391,8 @@ def prepare(case, child, dirs):
             emap = (o.get("emap") or {}) if o["fn"] in USES_MAP else {}
             o["probe"] = [py_expand(o["cmd"], lambda k: emap[k] if k in emap else env.get(k, ""))]
         elif o["op"] == "par":
-            o["probe"] = [py_expand(o["cmd"] if o.get("parfn") else cls[o["c"]]["cmd"], lambda k: env.get(k, ""))]
+            o["probe"] = sorted({py_expand(x["cmd"] if x["op"] == "direct" else cls[x["c"]]["cmd"], lambda k: env.get(k, "")) for x in par_calls(o)})
+            env.update(par_envs(env, o)[-1])
     return c
 
 
@@ -449,7 +513,7 @@ def expected_call(case, env, o, fs):
     emap = (o.get("emap") or {}) if o["fn"] in USES_MAP else {}
     look = lambda k: emap[k] if k in emap else env.get(k, "")
     argv = [py_expand(x, look) for x in [o["cmd"]] + contents(arrays, o["args"])]
-    exe = which(case, env, fs, argv)
+    exe = None if emap_refused(o) else which(case, env, fs, argv)
     text, code = child_behaviour(argv, exe)
     fn = o["fn"]
     out = trim_nl(text) if fn in ("Output", "OutputWith") else (text if fn == "Exec" else None)
@@ -472,10 +536,20 @@ def par_extras(o):
     return o.get("extras") or [o["a"], o["b"]]
 
 
+def par_calls(o):
+    """the concurrent calls of a par operation as call / direct operations"""
+    if o.get("calls"):
+        return o["calls"]
+    if o.get("parfn"):
+        return [{"op": "direct", "fn": o["parfn"], "emap": None, "cmd": o["cmd"], "args": x} for x in par_extras(o)]
+    return [{"op": "call", "c": o["c"], "extra": x} for x in par_extras(o)]
+
+
 def par_envs(env, o):
-    """the environment at the START of each concurrent call (staggered: a Setenv right before some of them)"""
+    """the environment THE PROGRAM has set at the START of each concurrent call (staggered: a Setenv right before some of
+    them).  Env maps of other calls in flight are not Setenv operations: they do not count."""
     envs, e = [], dict(env)
-    for g, _ in enumerate(par_extras(o)):
+    for g, _ in enumerate(par_calls(o)):
         st = (o.get("stagger") or [])[g] if g < len(o.get("stagger") or []) else None
         if st:
             e = dict(e, **{st["k"]: st["v"]})
@@ -486,24 +560,27 @@ def par_envs(env, o):
 def par_expected(case, env, o, fs):
     """[(argv, text, ...)] per concurrent call, each under the environment at ITS start"""
     envs = par_envs(env, o)
-    if o.get("parfn"):
-        return [expected_call(case, envs[g], {"op": "direct", "fn": o["parfn"], "emap": None, "cmd": o["cmd"], "args": x}, fs) for g, x in enumerate(par_extras(o))]
-    return [expected_closure(case, envs[g], o["c"], x, fs) for g, x in enumerate(par_extras(o))]
+    return [expected_call(case, envs[g], x, fs) if x["op"] == "direct" else expected_closure(case, envs[g], x["c"], x["extra"], fs)
+            for g, x in enumerate(par_calls(o))]
 
 
 def par_what(case, o):
+    if o.get("calls"):
+        return "[%s]" % ", ".join(("sh.%s with env map %r" % (x["fn"], x.get("emap"))) if x["op"] == "direct" else
+                                  ("closure %d (%s)" % (x["c"], "OutCmd" if all_closures(case)[x["c"]]["kind"] == "out" else "RunCmd")) for x in o["calls"])
     if o.get("parfn"):
         return "sh.%s(%r, ...)" % (o["parfn"], o["cmd"])
     return "closure %d (%s)" % (o["c"], "OutCmd" if case["closures"][o["c"]]["kind"] == "out" else "RunCmd")
 
 
 def par_nbaked(case, o):
-    return 0 if o.get("parfn") else case["closures"][o["c"]]["baked"]["len"]
+    return 0 if (o.get("parfn") or o.get("calls")) else case["closures"][o["c"]]["baked"]["len"]
 
 
 def short(x, n=700):
     """repr with the long slow-expansion runs abbreviated"""
     r = re.sub(r"(\$\{Z\}){20,}", lambda m: "${Z}*%d" % (len(m.group(0)) // len(SLOW_REF)), repr(x))
+    r = re.sub(r"x{50,}", lambda m: "x*%d" % len(m.group(0)), r)
     return r if len(r) <= n else r[:n] + "..."
 
 
@@ -536,9 +613,11 @@ def oracle(case, ans):
                 argv, out, stdout, code, exe = expected_call(case, env, o, fs)
                 what = "sh.%s(%r, %r...)" % (o["fn"], o["cmd"], contents(arrays, o["args"]))
                 ref = "this call alone"
-                before = o.get("emap")
-                if (ob.get("emap") or {}) != (before or {}) or (before is None) != bool(ob.get("emap_nil")):
-                    bad.append("op %d: %s changed the env map: %r -> %r" % (i, what, before, ob.get("emap")))
+                before = [[hx(k), hx(v)] for k, v in emap_entries(o)]
+                was_nil = o.get("emap") is None and not o.get("emap_odd")
+                if ob.get("emap_hex") != before or was_nil != bool(ob.get("emap_nil")):
+                    bad.append("op %d: %s changed the env map: %s -> %s" % (i, what, short(emap_entries(o), 300),
+                                                                           short([(bytes.fromhex(k), bytes.fromhex(v)) for k, v in ob.get("emap_hex") or []], 300)))
             if ob["argv"] != ([argv] if exe else []):
                 bad.append("op %d: %s started %r, expected %s (command word %r: environment - PATH=%r - and file system at the time of the call)" % (
                     i, what, ob["argv"], ("exactly one child, program %s, with argv %r" % (exe, argv)) if exe else "no child: nothing startable is named", argv[0], env.get("PATH")))
@@ -570,6 +649,9 @@ def oracle(case, ans):
                         bad.append("op %d rep %d: concurrent call %d returned an error: %r" % (i, ri, g, rp["errs"][g][:200]))
                 if rp["snap"] != arrays:
                     bad.append("op %d rep %d: caller-visible arrays changed by concurrent calls: %s -> %s" % (i, ri, short(arrays), short(rp["snap"])))
+                for g, x in enumerate(par_calls(o)):
+                    if x["op"] == "direct" and (rp.get("emaps_hex") or [None] * (g + 1))[g] != [[hx(k), hx(v)] for k, v in emap_entries(x)]:
+                        bad.append("op %d rep %d: concurrent call %d (sh.%s) changed its env map: %s -> %r" % (i, ri, g, x["fn"], short(emap_entries(x), 200), rp.get("emaps_hex")[g]))
             env = par_envs(env, o)[-1]
         if ob["snap"] != arrays:
             bad.append("op %d (%s): caller-visible arrays changed: %s -> %s" % (i, o["op"], short(arrays), short(ob["snap"])))
@@ -603,6 +685,10 @@ def t_env(d, order=None):
     return coq_list(["(%s, %s)" % (coq_str(k), coq_str(d[k])) for k in ks])
 
 
+def t_bytes_env(entries):
+    return coq_list(["(%s, %s)" % (coq_str(k), coq_str(v)) for k, v in entries])
+
+
 def t_cls(cls):
     return coq_list(["(C_ %s %s %s)" % ("KOut" if c["kind"] == "out" else "KRun", coq_str(c["cmd"]), t_slice(c["baked"])) for c in cls])
 
@@ -616,7 +702,7 @@ def t_op(o):
         return "(SetEnv %s %s)" % (coq_str(FS_EPOCH), coq_str(o["epoch"]))
     if o["op"] == "call":
         return "(CallClosure %d %s)" % (o["c"], t_slice(o["extra"]))
-    return "(CallDirect %s %s %s %s)" % (FNSEL[o["fn"]], t_env(o.get("emap") or {}), coq_str(o["cmd"]), t_slice(o["args"]))
+    return "(CallDirect %s %s %s %s)" % (FNSEL[o["fn"]], t_bytes_env(emap_entries(o)), coq_str(o["cmd"]), t_slice(o["args"]))
 
 
 def t_optstr(x):
@@ -649,36 +735,41 @@ def hist_term(case, ans):
     for o, ob in zip(case["ops"], ans["obs"]):
         obs.append("{| i_argv := %s; i_out := %s; i_stdout := %s; i_status := %d; i_snap := %s; i_emap := %s |}" % (
             coq_list([t_strs(a) for a in ob["argv"]]), t_optstr(ob["out"]), coq_str(ob.get("stdout") or ""), ob.get("status") or 0,
-            "h0_" if ob["snap"] == case["arrays"] else t_heap(ob["snap"]), t_env(ob.get("emap") or {})))
+            "h0_" if ob["snap"] == case["arrays"] else t_heap(ob["snap"]),
+            t_bytes_env([(bytes.fromhex(k), bytes.fromhex(v)) for k, v in ob.get("emap_hex") or []])))
     # the caller's arrays are written once per case (let-bound); an unchanged snapshot refers to them
     return "(let h0_ := %s in {| c_lookup := %s; c_env := %s; c_heap := h0_; c_cls := %s; c_ops := %s; c_obs := %s |})" % (
         t_heap(case["arrays"]), t_lookup(case, ans), t_env(full_env(case)), t_cls(case["closures"]), coq_list([t_op(o) for o in case["ops"]]), coq_list(obs))
 
 
 def stagger_history(case, ans, oi, o, ob, rp):
-    """a staggered repetition as a HISTORY for the model: call, Setenv, call, ... - each call is predicted under the
-    environment at its own start (by C16_concurrent the interleaving of the memory actions does not matter)"""
-    extras = par_extras(o)
+    """a staggered repetition as a HISTORY for the model: call, Setenv, call, ... and whatever follows the par operation -
+    each call is predicted under the environment the program has set at its own start (by C16_concurrent the interleaving of
+    the memory actions does not matter; env maps of other calls in flight are not Setenv operations)"""
+    calls = par_calls(o)
     exp = [e[0] for e in par_expected(case, par_env_before(case, oi), o, {})]
     rest = list(rp["lines"])
     mine = []
-    for e in exp:
+    for g, e in enumerate(exp):
         if e in rest:
             rest.remove(e)
             mine.append([e])
         else:
             mine.append(None)
     mine = [m if m is not None else ([rest.pop(0)] if rest else []) for m in mine]
+    for g, x in enumerate(calls):
+        if x["op"] == "direct" and emap_refused(x):
+            mine[g] = []                  # nothing started, nothing reported
     ops, obs = list(case["ops"][:oi]), list(ans["obs"][:oi])
-    for g, x in enumerate(extras):
+    for g, x in enumerate(calls):
         st = (o.get("stagger") or [])[g] if g < len(o.get("stagger") or []) else None
         if st:
             ops.append({"op": "setenv", "k": st["k"], "v": st["v"]})
-            obs.append({"argv": [], "out": None, "stdout": "", "status": 0, "snap": rp["snap"], "emap": None})
-        ops.append({"op": "direct", "fn": o["parfn"], "emap": None, "cmd": o["cmd"], "args": x} if o.get("parfn") else {"op": "call", "c": o["c"], "extra": x})
-        obs.append({"argv": mine[g], "out": rp["outs"][g], "stdout": "", "status": rp["status"][g], "snap": rp["snap"], "emap": None,
-                    "lookups": ob.get("lookups")})
-    return dict(case, ops=ops), {"obs": obs}
+            obs.append({"argv": [], "out": None, "stdout": "", "status": 0, "snap": rp["snap"], "emap_hex": []})
+        ops.append(x)
+        obs.append({"argv": mine[g], "out": rp["outs"][g], "stdout": "", "status": rp["status"][g], "snap": rp["snap"],
+                    "emap_hex": (rp.get("emaps_hex") or [[]] * (g + 1))[g] if x["op"] == "direct" else [], "lookups": ob.get("lookups")})
+    return dict(case, ops=ops + list(case["ops"][oi + 1:])), {"obs": obs + list(ans["obs"][oi + 1:])}
 
 
 def par_env_before(case, oi):
@@ -698,12 +789,14 @@ def par_terms(case, ans):
         if o["op"] == "setenv":
             env[o["k"]] = o["v"]
             continue
-        extras = par_extras(o)
+        if o["op"] != "par":
+            continue
         if o.get("stagger"):
             for rp in (ob.get("reps") or [])[:1]:
                 c2, a2 = stagger_history(case, ans, case["ops"].index(o), o, ob, rp)
                 hist_items.append(hist_term(c2, a2))
             continue
+        extras = par_extras(o)
         exp = [e[0] for e in par_expected(case, dict(env), o, {})]
         if o.get("parfn"):
             t_call = lambda x: "(CallDirect %s [] %s %s)" % (FNSEL[o["parfn"]], coq_str(o["cmd"]), t_slice(x))
@@ -764,7 +857,7 @@ def run(ctx):
         cases = [dict(ctx.replay["case"])]
     else:
         nh = 260 if ctx.quick else 6000
-        npar = 26 if ctx.quick else 300
+        npar = 32 if ctx.quick else 300
         reps = 4 if ctx.quick else 10
         cases = [gen_history(rng) for _ in range(nh)] + [gen_par(rng, reps) for _ in range(npar)]
     ctx.log("built; running %d cases" % len(cases))
@@ -839,7 +932,7 @@ def run(ctx):
     byfn, cmdforms = {}, {}
     feat = {"call_without_extra": 0, "call_after_setenv": 0, "repeated_call_of_one_closure": 0, "baked_with_spare_capacity": 0,
             "extra_aliases_baked_array": 0, "offset_slices": 0, "closures_sharing_an_array": 0, "dollar_in_baked": 0, "env_map_overrides": 0,
-            "par_repetitions": 0, "failing_calls": 0, "output_family_call_after_failed_call_with_output": 0,
+            "par_repetitions": 0, "env_maps_with_odd_entries": 0, "env_maps_refused_by_os_exec": 0, "failing_calls": 0, "output_family_call_after_failed_call_with_output": 0,
             "runcmd_called_under_other_verbose_than_made": 0, "calls_not_started": 0,
             "closure_called_again_with_another_program_named": 0, "closure_started_then_not_or_vice_versa": 0, "calls_in_verbose_mode": 0, "verbose_direct_calls_without_dollar": 0, "concurrent_slow_expansion_cases": 0}
     par_baked, par_goroutines, par_targets, par_shapes = {}, {}, {}, {}
@@ -910,16 +1003,18 @@ def run(ctx):
                 ncalls += 1
                 byfn[o["fn"]] = byfn.get(o["fn"], 0) + 1
                 feat["env_map_overrides"] += bool(o.get("emap")) and o["fn"] in USES_MAP
+                feat["env_maps_with_odd_entries"] += bool(o.get("emap_odd"))
+                feat["env_maps_refused_by_os_exec"] += emap_refused(o)
                 cs = contents(c["arrays"], o["args"])
                 feat["verbose_direct_calls_without_dollar"] += is_verbose and len(cs) > 0 and not any("$" in x for x in cs)
             if o["op"] == "par":
                 feat["par_repetitions"] += o["reps"]
                 par_shapes[o.get("shape", "distinct")] = par_shapes.get(o.get("shape", "distinct"), 0) + 1
-                tgt = o.get("parfn") or ("OutCmd" if c["closures"][o["c"]]["kind"] == "out" else "RunCmd")
+                tgt = "mixed closure + mapped direct" if o.get("calls") else o.get("parfn") or ("OutCmd" if c["closures"][o["c"]]["kind"] == "out" else "RunCmd")
                 par_targets[tgt] = par_targets.get(tgt, 0) + 1
                 nb = c["closures"][o["c"]]["baked"]["len"]
                 par_baked[nb] = par_baked.get(nb, 0) + 1
-                ng = len(par_extras(o))
+                ng = len(par_calls(o))
                 par_goroutines[ng] = par_goroutines.get(ng, 0) + 1
                 feat["concurrent_slow_expansion_cases"] += any(SLOW_REF * 20 in x for x in contents(c["arrays"], c["closures"][o["c"]]["baked"]))
         feat["repeated_call_of_one_closure"] += any(v >= 2 for v in calls_of.values())
